@@ -7,11 +7,10 @@
    loops whose body can match the empty string (the empty-iteration check of run_loop is what the proof of
    loop_dec uses), greedy and lazy, any min/max, forward and inside lookbehind, nested lookarounds.
    The same is proved for the backtracking model (Model/BT.v, bt_search with the trivial prefilter) for every
-   node kind except Loop1CharBody; there the undo log is shown to restore captures, stack and loop data after
+   node kind; there the undo log is shown to restore captures, stack and loop data after
    every failed exploration (chain / Qback in Proofs/BTCorrect.v), which bounds the backtrack store by the
    ordered search itself.
-   Not proved: Loop1CharBody in the backtracker (run_scm_loop; compared with the PikeVM step counts by the
-   correspondence check only); and that the IR semantics is defined for some fuel (it is evaluated, not proved
+   Not proved: that the IR semantics is defined for some fuel (it is evaluated, not proved
    total). *)
 From RV Require Import Base.
 From RV.Model Require Import Utf8 Indexer CodePointSet Insn IR Optimizer Unfold Emit Pike BT Exec Fold.
